@@ -16,6 +16,7 @@ import JSV.Proofs.MshFacts
 import JSV.Proofs.MshCloneOk
 import JSV.Model.Unmarshal
 import JSV.Proofs.IsoValid
+import JSV.Proofs.ResIso4
 namespace JSV.C20
 open JSV Go
 
@@ -219,6 +220,82 @@ theorem clone_validate_same_partial (B d : Nat) (root c : NodeId) (env₁ env₂
   have h1 : Go.Sim B env₁.st env₂.st d root c := Go.cloneFuel_sim B env₁.st _ d (Go.Ext.refl _) hg h hB
   exact Iso.validate_iso env₁ env₂ hwf₁ hwf₂ hst₁ hst₂ hE fuel .nil (fun _ hx => nomatch hx) (fun _ hx => nomatch hx)
     ⟨d, hfree, h1⟩ j hj
+
+/-! ## the clone keeps the validation behaviour (trees WITH references: both sides resolved) -/
+
+/-- `clone_resolves_same`: **Resolve commutes with CloneSchemas** (self-contained resolution: no Loader, or a Loader
+    that hands out no document — `Go.RIso.NoDocs`).  If `Resolve` of the original `root` (in the store before cloning,
+    `st`) returns normally, and the clone `c` is accepted by checkStructure in the store after cloning, then `Resolve` of
+    the clone — same options, same base URI, same fuel — returns normally too, with the same draft and Loader log, and
+    there is a one-to-one relation `R` between the schemas of the two trees such that `R root c`, `R`-related schemas are
+    shallow copies of each other with `R`-related members (`Go.NodeRel`), and the two `Resolved` are `R`-related
+    (`Go.RIso.ResolvedRel`: related `$ref` / `$dynamicRef` targets, the same dynamic anchor names, related base
+    resources, related anchor tables with the same names and kinds, the same base URIs and paths).
+    Proof: `Go.RIso.resolve_rel` (JSV/Proofs/ResIso*.lean), a simulation of the whole resolver — checkStructure,
+    checkLocal, resolveURIs, Schema.all, resolveRef with its JSON-pointer walk, resolveRefs — along a renaming of schema
+    node ids; `R` pairs the schemas checkStructure registers at the same position (`Go.RIso.PairR`).
+    `B ≤ 10^9`: the model's nil `*Schema` inside a field is the id 10^9, which must not be a node. -/
+theorem clone_resolves_same (B d : Nat) (st : Store) (root c : NodeId) (st' : Store)
+    (hg : Go.Good B st d root) (h : Go.clone st root = .ok (c, st')) (hB : st'.size ≤ B) (hBn : B ≤ 1000000000)
+    (env : Go.Env) (hnd : Go.RIso.NoDocs env) (fuel : Nat) (base : String) (rs : Go.Resolved)
+    (h₁ : Go.resolve { env with st := st } fuel root base = .ok rs)
+    (f₂ : Nat) (fresh₂ : List (NodeId × Go.Info)) (hcs₂ : Go.checkStructure st' f₂ [(c, "")] [] = .ok fresh₂) :
+    ∃ (R : NodeId → NodeId → Prop) (rs' : Go.Resolved),
+      Go.resolve { env with st := st' } fuel c base = .ok rs' ∧ Go.RIso.BiU R ∧ R root c ∧
+      (∀ a b, R a b → Go.OptRel (Go.NodeRel R) (st.get? a) (st'.get? b)) ∧ Go.RIso.ResolvedRel R rs rs' := by
+  have hext := Go.cloneFuel_ext _ h
+  have hs : st.size ≤ B := Nat.le_trans hext.1 hB
+  have hsim : Go.Sim B st st' d root c := Go.cloneFuel_sim B st _ d (Go.Ext.refl st) hg h hB
+  obtain ⟨R, rs', h₂, hbiu, hroot, -, hnode, hres⟩ :=
+    Go.RIso.resolve_trees (env₁ := { env with st := st }) (env₂ := { env with st := st' })
+      (Go.RIso.cloneS_treeSim hs hB) rfl rfl rfl hnd
+      (Go.get?_eq_none_iff.2 (Nat.le_trans hs hBn)) (Go.get?_eq_none_iff.2 (Nat.le_trans hB hBn))
+      (r₁ := root) (r₂ := c) ⟨d, hsim⟩ fuel base h₁ hcs₂
+  exact ⟨R, rs', h₂, hbiu, hroot, hnode, hres⟩
+
+/-- `clone_validates_same_resolved`: the original and the clone, EACH RESOLVED ON ITS OWN — the original in the store
+    before cloning, the clone in the store after, same options (self-contained: `NoDocs`), same base URI —, have the same
+    draft and Loader log and give every instance, with every amount of fuel, the same Spec result (undefined / invalid /
+    valid with the same evaluated properties and items), whatever `$ref` / `$dynamicRef` / `$id` / `$anchor` /
+    `$dynamicAnchor` the tree contains.  (`Go.RIso.specOf st rs reMatch` is the Spec environment read off the store and
+    the tables of the `Resolved`, `Refine.specEnvOf` of the evaluator's environment.)
+    Also for the original resolved again in the store after cloning (`root` in `st'`): the original is untouched. -/
+theorem clone_validates_same_resolved (B d : Nat) (st : Store) (root c : NodeId) (st' : Store)
+    (hg : Go.Good B st d root) (h : Go.clone st root = .ok (c, st')) (hB : st'.size ≤ B) (hBn : B ≤ 1000000000)
+    (env : Go.Env) (hnd : Go.RIso.NoDocs env) (fuel : Nat) (base : String) (rs rs' : Go.Resolved)
+    (h₁ : Go.resolve { env with st := st } fuel root base = .ok rs)
+    (h₂ : Go.resolve { env with st := st' } fuel c base = .ok rs') :
+    rs.draft = rs'.draft ∧ rs.log = rs'.log ∧
+      ∀ (reMatch : String → String → Bool) (vfuel : Nat) (j : Json),
+        Spec.evalFuel (Go.RIso.specOf st' rs' reMatch) vfuel [] c j =
+          Spec.evalFuel (Go.RIso.specOf st rs reMatch) vfuel [] root j := by
+  have hext := Go.cloneFuel_ext _ h
+  have hs : st.size ≤ B := Nat.le_trans hext.1 hB
+  have hsim : Go.Sim B st st' d root c := Go.cloneFuel_sim B st _ d (Go.Ext.refl st) hg h hB
+  obtain ⟨e1, e2, e3⟩ := Go.RIso.trees_validate_same (env₁ := { env with st := st }) (env₂ := { env with st := st' })
+    (Go.RIso.cloneS_treeSim hs hB) rfl rfl rfl hnd
+    (Go.get?_eq_none_iff.2 (Nat.le_trans hs hBn)) (Go.get?_eq_none_iff.2 (Nat.le_trans hB hBn))
+    (r₁ := root) (r₂ := c) ⟨d, hsim⟩ fuel base h₁ h₂
+  exact ⟨e1, e2, fun reMatch vfuel j => (e3 reMatch vfuel j).symm⟩
+
+/-- the frame: the original resolved in the store AFTER cloning means what it meant before -/
+theorem clone_original_resolves_same (B d : Nat) (st : Store) (root c : NodeId) (st' : Store)
+    (hg : Go.Good B st d root) (h : Go.clone st root = .ok (c, st')) (hB : st'.size ≤ B) (hBn : B ≤ 1000000000)
+    (env : Go.Env) (hnd : Go.RIso.NoDocs env) (fuel : Nat) (base : String) (rs rs' : Go.Resolved)
+    (h₁ : Go.resolve { env with st := st } fuel root base = .ok rs)
+    (h₂ : Go.resolve { env with st := st' } fuel root base = .ok rs') :
+    rs.draft = rs'.draft ∧ rs.log = rs'.log ∧
+      ∀ (reMatch : String → String → Bool) (vfuel : Nat) (j : Json),
+        Spec.evalFuel (Go.RIso.specOf st' rs' reMatch) vfuel [] root j =
+          Spec.evalFuel (Go.RIso.specOf st rs reMatch) vfuel [] root j := by
+  have hext := Go.cloneFuel_ext _ h
+  have hs : st.size ≤ B := Nat.le_trans hext.1 hB
+  have hsim : Go.Sim B st st' d root root := Go.Sim.of_good hext d root hg
+  obtain ⟨e1, e2, e3⟩ := Go.RIso.trees_validate_same (env₁ := { env with st := st }) (env₂ := { env with st := st' })
+    (Go.RIso.cloneS_treeSim hs hB) rfl rfl rfl hnd
+    (Go.get?_eq_none_iff.2 (Nat.le_trans hs hBn)) (Go.get?_eq_none_iff.2 (Nat.le_trans hB hBn))
+    (r₁ := root) (r₂ := root) ⟨d, hsim⟩ fuel base h₁ h₂
+  exact ⟨e1, e2, fun reMatch vfuel j => (e3 reMatch vfuel j).symm⟩
 
 /-- the 23 fields cloneStep rewrites are exactly the Schema-typed fields of the Go struct: every field
     whose Go type mentions `Schema` has type `*Schema`, `[]*Schema` or `map[string]*Schema`; there are 23
